@@ -235,7 +235,39 @@ def parse_cbmc(out):
     return results, msgs, status
 
 
+class MemBudget:
+    """admission control for solver processes: an obligation reserves its expected resident memory before its
+    back ends start, so that 16 workers do not push the machine into swap / out-of-memory (which would turn a
+    passing check into 'inconclusive').  Reservation = half the address-space limit for obligations that state
+    mem_gb (resident size stays well below the limit -- measured), 2 GB otherwise; times the number of back ends."""
+    def __init__(self, total):
+        self.total, self.used, self.cv = total, 0.0, threading.Condition()
+    def acquire(self, n):
+        n = min(n, self.total)
+        with self.cv:
+            while self.used + n > self.total:
+                self.cv.wait()
+            self.used += n
+        return n
+    def release(self, n):
+        with self.cv:
+            self.used -= n
+            self.cv.notify_all()
+
+
+MEM_BUDGET = MemBudget(float(os.environ.get("VERIF_MEM_BUDGET_GB", "44")))
+
+
 def run_cbmc_portfolio(ob, gb, extra=(), want_results=True):
+    need = (ob["mem_gb"] / 2.0 if "mem_gb" in ob else 2.0) * len(ob.get("backends", ["cadical"]))
+    got = MEM_BUDGET.acquire(need)
+    try:
+        return run_cbmc_portfolio_(ob, gb, extra, want_results)
+    finally:
+        MEM_BUDGET.release(got)
+
+
+def run_cbmc_portfolio_(ob, gb, extra=(), want_results=True):
     """run the obligation's back ends in parallel; first definitive answer wins"""
     backends = ob.get("backends", ["cadical"])
     timeout = ob.get("timeout", 600)
